@@ -896,7 +896,115 @@ func aliasAtLengthBoundaries(r *monitor.Run) {
 	}
 }
 
+// subscriptionIdentifiersAtTheLimit: the Subscription Identifier property is added by the broker on the way out (one per matching
+// subscription of the receiver), so it belongs to the size of the packet the client is sent but not to the message the publisher
+// sent. For identifiers of every varint width, one and two matching subscriptions, with and without outbound aliases, messages
+// whose outgoing size (identifiers included, no alias) is M-8..M+1: no packet larger than M arrives, what does not arrive is
+// reported dropped, and the connection lives on.
+func subscriptionIdentifiersAtTheLimit(r *monitor.Run) {
+	b, err := broker.Start(broker.Options{Cfg: func(c *config.Config) { c.MQTT.MessageExpiry = 0 }})
+	if err != nil {
+		r.Inconclusive(err.Error())
+		return
+	}
+	defer b.Stop(step)
+	type variant struct {
+		ids   []uint32
+		alias uint16
+	}
+	vs := []variant{
+		{[]uint32{5}, 4}, {[]uint32{200}, 4}, {[]uint32{20000}, 4}, {[]uint32{3000000}, 4}, {[]uint32{268435455}, 4},
+		{[]uint32{5, 268435455}, 4}, {[]uint32{127, 128}, 4}, {[]uint32{268435455}, 0}, {[]uint32{16384, 16383}, 0},
+	}
+	for vi, v := range vs {
+		const M = uint32(100)
+		id := fmt.Sprintf("si-%d", vi)
+		c, err := wire.Dial(id, b.Addr, mqttx.V5)
+		if err != nil {
+			r.Inconclusive(err.Error())
+			return
+		}
+		m := M
+		props := &mqttx.Props{MaxPacketSize: &m}
+		if v.alias > 0 {
+			a := v.alias
+			props.TopicAliasMax = &a
+		}
+		if _, err := c.Connect(&mqttx.Packet{ClientID: id, CleanStart: true, Props: props}, step); err != nil {
+			r.Inconclusive(err.Error())
+			c.Close()
+			return
+		}
+		filters := []string{"si/" + id + "/#", "si/" + id + "/+"}
+		for i, sid := range v.ids {
+			if _, err := c.Subscribe([]mqttx.Sub{{Filter: filters[i], QoS: 1}}, sid, step); err != nil {
+				r.Inconclusive(err.Error())
+				c.Close()
+				return
+			}
+		}
+		for slack := -1; slack <= 8; slack++ {
+			topic := fmt.Sprintf("si/%s/%d", id, slack+1)
+			mk := func(payload int) *mqttx.Packet {
+				return &mqttx.Packet{Type: mqttx.PUBLISH, Topic: topic, QoS: 1, PacketID: 1, Payload: bytes.Repeat([]byte("p"), payload), Props: &mqttx.Props{SubscriptionIDs: v.ids}}
+			}
+			pl := int(M) - slack - mqttx.Size(mk(0), mqttx.V5)
+			if pl < 1 {
+				continue
+			}
+			size := mqttx.Size(mk(pl), mqttx.V5)
+			from := b.Log.Len()
+			seen := len(c.Publishes())
+			b.Srv.Publisher().Publish(&gmqtt.Message{Topic: topic, Payload: bytes.Repeat([]byte("p"), pl), QoS: 1})
+			b.Srv.Publisher().Publish(&gmqtt.Message{Topic: topic, Payload: []byte(fmt.Sprintf("end%d", slack)), QoS: 1})
+			err = c.WaitPayload(fmt.Sprintf("end%d", slack), step)
+			r.Eval(1)
+			got := false
+			for _, rec := range c.Publishes()[seen:] {
+				aliased := rec.P.Props != nil && rec.P.Props.TopicAlias != nil
+				if uint32(rec.Size) > M {
+					r.Violation(fmt.Sprintf("outbound.oversize_with_subscription_identifier:excess=%d:ids=%d:aliased=%v", rec.Size-int(M), len(v.ids), aliased), fmt.Sprintf("a PUBLISH of %d bytes was sent to a client whose Maximum Packet Size is %d (subscription identifiers %v, %d bytes with them and without alias)", rec.Size, M, v.ids, size), nil)
+				}
+				if len(rec.P.Payload) == pl {
+					got = true
+					n := 0
+					if rec.P.Props != nil {
+						n = len(rec.P.Props.SubscriptionIDs)
+					}
+					if n != len(v.ids) {
+						r.Inconclusive(fmt.Sprintf("subscription identifiers: expected %d in the PUBLISH, saw %d", len(v.ids), n))
+					}
+				}
+			}
+			if err != nil {
+				r.Violation("outbound.dead_with_subscription_identifier", fmt.Sprintf("the connection did not deliver the small message that followed: %v (ctl %v)", err, c.Ctl()), nil)
+				break
+			}
+			dropped := false
+			for _, e := range b.Log.Events()[from:] {
+				if e.Kind == "OnMsgDropped" && e.Client == id {
+					dropped = true
+				}
+			}
+			switch {
+			case !got && !dropped:
+				r.Violation("outbound.missing_with_subscription_identifier", fmt.Sprintf("a message of %d bytes (limit %d, identifiers %v) was neither delivered nor reported dropped", size, M, v.ids), nil)
+			case !got && uint32(size) <= M:
+				// not this property's business (a loss is C01's), counted only
+				r.Count("outbound_subscription_identifier_dropped_although_fitting", 1)
+			}
+			r.Count("outbound_subscription_identifier_cases", 1)
+			if got {
+				r.Count("outbound_subscription_identifier_delivered", 1)
+			}
+		}
+		c.Close()
+		r.Nontrivial(id)
+	}
+}
+
 func Run(r *monitor.Run) {
+	subscriptionIdentifiersAtTheLimit(r)
 	aliasAtLengthBoundaries(r)
 	serialAtTheLimit(r)
 	cs := allCases(r)
